@@ -212,7 +212,28 @@ func (this *partition) remove(ctx context.Context, id uuid.UUID) error {
 	return nil
 }
 
+// Batch items are validated before they are proposed: an entry that cannot be applied
+// would fail on every replica (and again on every replay of the log).
+func (this *partition) validateBatchItems(items []*pb.BatchItem, withValue bool) error {
+	for _, item := range items {
+		if _, err := uuid.FromBytes(item.GetId()); err != nil {
+			return err
+		}
+		if withValue {
+			value := math.Vector(item.GetValue())
+			if err := this.dataset.checkDimension(&value); err != nil {
+				return err
+			}
+		}
+	}
+	return nil
+}
+
 func (this *partition) batchInsert(ctx context.Context, items []*pb.BatchItem) (map[uuid.UUID]error, error) {
+	if err := this.validateBatchItems(items, true); err != nil {
+		return nil, err
+	}
+
 	this.raftMu.RLock()
 	defer this.raftMu.RUnlock()
 	if this.raft == nil {
@@ -236,6 +257,10 @@ func (this *partition) batchInsert(ctx context.Context, items []*pb.BatchItem) (
 }
 
 func (this *partition) batchUpdate(ctx context.Context, items []*pb.BatchItem) (map[uuid.UUID]error, error) {
+	if err := this.validateBatchItems(items, true); err != nil {
+		return nil, err
+	}
+
 	this.raftMu.RLock()
 	defer this.raftMu.RUnlock()
 	if this.raft == nil {
@@ -255,6 +280,10 @@ func (this *partition) batchUpdate(ctx context.Context, items []*pb.BatchItem) (
 }
 
 func (this *partition) batchRemove(ctx context.Context, items []*pb.BatchItem) (map[uuid.UUID]error, error) {
+	if err := this.validateBatchItems(items, false); err != nil {
+		return nil, err
+	}
+
 	this.raftMu.RLock()
 	defer this.raftMu.RUnlock()
 	if this.raft == nil {
